@@ -14,7 +14,8 @@
 From Coq Require Import List ZArith NArith Bool String.
 Import ListNotations.
 From DD Require Import Base.PyStr Base.Value Diff.Tree Diff.DiffModel Hash.HashModel Hash.Equiv
-  Hash.HashProofsBase Hash.HashProofsC07 DiffIO.DiffIOModel DiffIO.DiffIOProofs.
+  Hash.HashProofsBase Hash.HashProofsC07 Hash.HashProofsMemo DiffIO.DiffIOModel DiffIO.DiffIOProofs
+  DiffIO.MemoModel DiffIO.DiffIOCache DiffIO.DiffIOMemo DiffIO.DiffIOMemoProofs DiffIO.DiffIOOrder DiffIO.DiffIOMemoVerdict.
 
 (* Full strength (all values, all thresholds) is false of the faithful model: *)
 
@@ -29,8 +30,23 @@ Theorem C05_verdict_tag_refuted :
 Proof. exact tag_refuted. Qed.
 Print Assumptions C05_verdict_tag_refuted.
 
-(* K2: dict keys are matched by Python ==: 1 and 1.0 are one key *)
+(* K2 with the implementation's real behaviour.  [run_diff_io_m] (DiffIO/DiffIOMemo.v) threads DeepDiff's
+   run-wide DeepHash table through the traversal: the table is keyed by Python ==, so 1.0 is served the hash
+   of 1 and DeepDiff([1], [1.0], ignore_order=True) == {}, while the memo-free model (and ordered mode) report
+   the type change *)
 Theorem C05_verdict_alias_refuted :
+  forall rep udiff pairs,
+  let t1 := VList [VAtom (AInt 1)] in
+  let t2 := VList [VAtom (AHalf 2)] in
+  wf t1 = true /\ wf t2 = true /\ tag_safe t1 = true /\ tag_safe t2 = true /\
+  fst (run_diff_io_m hexhash udiff no_skip no_skip cfg_default rep pairs t1 t2) = ([], []) /\
+  ~ eqv (io_opts cfg_default rep) t1 t2 /\
+  fst (run_diff_io hexhash udiff no_skip no_skip cfg_default rep (fun _ => []) t1 t2) <> [].
+Proof. exact memo_alias_refuted. Qed.
+Print Assumptions C05_verdict_alias_refuted.
+
+(* K2, the part the memo-free model has as well: dict keys are matched by Python ==: 1 and 1.0 are one key *)
+Theorem C05_verdict_key_alias_refuted :
   forall (H : pystr -> pystr) udiff rep pairs,
   let t1 := VDict [(AInt 1, VAtom (AStr (s2p "a")))] in
   let t2 := VDict [(AHalf 2, VAtom (AStr (s2p "a")))] in
@@ -38,7 +54,7 @@ Theorem C05_verdict_alias_refuted :
   run_diff_io H udiff no_skip no_skip cfg_default rep pairs t1 t2 = ([], []) /\
   ~ eqv (io_opts cfg_default rep) t1 t2.
 Proof. exact alias_refuted. Qed.
-Print Assumptions C05_verdict_alias_refuted.
+Print Assumptions C05_verdict_key_alias_refuted.
 
 (* threshold_to_diff_deeper = 2: a dict is reported as changed against itself *)
 Theorem C05_threshold_above_one_refuted :
@@ -60,6 +76,37 @@ Theorem C05_verdict_partial :
   (fst (run_diff_io H udiff no_skip excl c rep pairs t1 t2) = [] <-> eqv (io_opts c rep) t1 t2).
 Proof. exact verdict. Qed.
 Print Assumptions C05_verdict_partial.
+
+(* ... and for the model WITH the shared hashes table (the faithful one when atoms alias): where nothing
+   aliases the table is transparent - [diff_io_m] is the memo-free traversal and the table stays right - *)
+Theorem C05_memo_transparent_partial :
+  forall (H : pystr -> pystr) udiff skip excl c rep pairs (m : memo) t1 t2 p1 p2,
+  memo_ok H (io_opts c rep) m -> wf t1 = true -> wf t2 = true ->
+  no_alias (matoms m ++ atoms_of t1 ++ atoms_of t2) = true ->
+  fst (diff_io_m H udiff skip excl c rep pairs t1 t2 p1 p2 m) = diff_io_o H udiff skip excl c rep pairs t1 t2 p1 p2 /\
+  memo_ok H (io_opts c rep) (snd (diff_io_m H udiff skip excl c rep pairs t1 t2 p1 p2 m)).
+Proof. exact diff_io_m_pure. Qed.
+Print Assumptions C05_memo_transparent_partial.
+
+(* ([diff_io_o] lists the children of a dict in the order of t2's keys, [diff_io] in that of t1's: same entries) *)
+Theorem C05_traversal_order_irrelevant :
+  forall (H : pystr -> pystr) udiff skip excl c rep pairs t1 t2 p1 p2,
+  wf t1 = true -> wf t2 = true ->
+  Permutation.Permutation (fst (diff_io_o H udiff skip excl c rep pairs t1 t2 p1 p2)) (fst (diff_io H udiff skip excl c rep pairs t1 t2 p1 p2)) /\
+  Permutation.Permutation (snd (diff_io_o H udiff skip excl c rep pairs t1 t2 p1 p2)) (snd (diff_io H udiff skip excl c rep pairs t1 t2 p1 p2)).
+Proof. exact diff_io_o_perm. Qed.
+Print Assumptions C05_traversal_order_irrelevant.
+
+(* so the verdict holds for the table-threading model too *)
+Theorem C05_verdict_memo_partial :
+  forall (H : pystr -> pystr),
+  (forall s, s <> [] -> sepfree (H s)) -> (forall s t, H s = H t -> s = t) ->
+  forall udiff excl c rep pairs t1 t2,
+  thr_num c <= thr_den c ->
+  wf t1 = true -> wf t2 = true -> tag_safe t1 = true -> tag_safe t2 = true -> alias_free2 t1 t2 = true ->
+  (fst (fst (run_diff_io_m H udiff no_skip excl c rep pairs t1 t2)) = [] <-> eqv (io_opts c rep) t1 t2).
+Proof. exact verdict_memo. Qed.
+Print Assumptions C05_verdict_memo_partial.
 
 (* one direction needs no guard on the contents at all (and no hypothesis on the hasher) *)
 Theorem C05_equal_gives_empty :
